@@ -51,4 +51,9 @@ TEXTS = {
         "note": "Trusted: Lean kernel; the regex crate; the model's faithfulness validated exhaustively on the small universe and randomly beyond; equality model = reference is proved for the non-hostname paths and checked (not proved) for the ||host paths inside Spec.inDomain.",
         "technique": "Lean 4 theorems (rule induction on MatchesAt, induction on patterns) + exhaustive correspondence on a small universe",
     },
+    "C03": {
+        "level": "Lean 4 proofs, for every option list (any length, order, duplicates, conflicts), that each bit of the mask built by NetworkFilter::parse is a statement about which options occur (flag bits set iff some option sets them, party bits kept iff no option clears them, positive/negated type sets = the type options), hence order independence and idempotence; the declarative reference (type set, party, scheme, initiator domains with subdomain coverage and exclusions) is compared exhaustively with the real matcher and the Lean parser + check_options model over type alias x scheme x party x source relation for single options, pairs and triples. The option-name table and bit positions come from the source on every run.",
+        "note": "Trusted: Lean kernel; extract_tables.py; the composition `check_options (parse line) = refOptions` is established by exhaustive correspondence on the option universe (569k rule/request pairs per quick run), the per-bit characterisations are proved.",
+        "technique": "Lean 4 theorems (induction over the option list, bit lemmas) + exhaustive correspondence over the option universe",
+    },
 }
